@@ -392,6 +392,64 @@ func r034(c *Ctx, r *R) {
 		}
 	}
 	r.Check(ok, "zero-factors-refused", f.Pos(), "replication factors 0/0 are refused", "allocate() no longer refuses unset (0/0) replication factors")
+	// preset allocations (the adder fills them with the block
+	// destinations) are dropped when the effective factor is -1: the
+	// everywhere test guarding `pin.Allocations = nil` is evaluated after
+	// the configured defaults replaced unset (0) factors, i.e. no store
+	// to a replication factor field is reachable from the test.
+	srf := c.fn(r, "", "Cluster.setupReplicationFactor")
+	if srf == nil {
+		return
+	}
+	var clears []*ssa.Store
+	var factorStores []*ssa.Store
+	instrs(srf, func(i ssa.Instruction) {
+		st, ok := i.(*ssa.Store)
+		if !ok {
+			return
+		}
+		fa, ok := st.Addr.(*ssa.FieldAddr)
+		if !ok {
+			return
+		}
+		switch fieldOfAddr(fa).Name() {
+		case "Allocations":
+			if isNilConst(st.Val) {
+				clears = append(clears, st)
+			}
+		case "ReplicationFactorMin", "ReplicationFactorMax":
+			factorStores = append(factorStores, st)
+		}
+	})
+	if len(clears) == 0 {
+		r.Bad("everywhere:preset-cleared", srf.Pos(), "setupReplicationFactor no longer clears preset allocations for pin-everywhere pins: a pin with factor -1 is stored with a non-empty allocation list")
+		return
+	}
+	for _, cl := range clears {
+		var test *ssa.Call
+		for _, g := range guardsOf(cl.Block()) {
+			if gCall(g, true, "api.Pin).IsPinEverywhere", "api.PinOptions).IsPinEverywhere") {
+				test, _ = originCall(g.Cond)
+			}
+		}
+		if test == nil {
+			r.Bad("everywhere:preset-cleared", cl.Pos(), "the clearing of preset allocations is not guarded by the pin's IsPinEverywhere()")
+			continue
+		}
+		late := ""
+		for _, fs := range factorStores {
+			after := false
+			if fs.Block() == test.Block() {
+				after = dominatesInstr(test, fs)
+			} else {
+				after = blockReaches(test.Block(), fs.Block())
+			}
+			if after {
+				late = c.P.Pos(fs.Pos())
+			}
+		}
+		r.Check(late == "", "everywhere:preset-cleared", cl.Pos(), "preset allocations are cleared under IsPinEverywhere(), evaluated on the factors after defaults", "the everywhere test is evaluated before the default replication factor is applied (store at "+late+"): with a configured default of -1 and unset factors in the request, the preset allocations are kept and the pin is stored with factor -1 and a non-empty allocation list")
+	}
 }
 
 func r035(c *Ctx, r *R) {
